@@ -250,3 +250,143 @@ def check_dual_mode_calls(run, funcs, rule='R20'):
                               'len(%s) == %d): a %dx%d array rejected by the validating import reaches it and the extracted vector is '
                               'stored as the value of the object' % (fn, k + 1, k + 1, k, a.id, k, a.id, k, a.id, k, k + 1, k + 1), f=f, node=c)
     return n
+
+
+MEMBERSHIP = {'isrot', 'ishom', 'isrot2', 'ishom2', 'isR'}
+
+
+def check_inverted_guards(run, funcs, rule='R20g'):
+    """A function that raises "not a valid ..." where a membership predicate of its own argument has just SUCCEEDED rejects exactly
+    the values it is written for: the raise must lie on the failing side of the membership tests (if not isrot(T) and not ishom(T):
+    raise), never under a positive one."""
+    n = 0
+    for f in funcs:
+        txt = ast.unparse(f.node)
+        if not any(m in txt for m in MEMBERSHIP) or 'raise' not in txt:
+            continue
+        cfg = CFG(f.node)
+        facts = must_facts(cfg)
+        reach = cfg.reachable()
+        params = set(f.allparams)
+        for node in cfg.nodes:
+            if node.id not in reach or not isinstance(node.ast, ast.Raise):
+                continue
+            exc = node.ast.exc
+            exn = exc.func.id if isinstance(exc, ast.Call) and isinstance(exc.func, ast.Name) else (exc.id if isinstance(exc, ast.Name) else None)
+            if exn not in ('ValueError', 'TypeError'):
+                continue
+            fs = facts.get(node.id, frozenset())
+            pos = []
+            neg = []
+            for fc in fs:
+                e = fc[2].ast
+                if isinstance(e, ast.Call) and e.args and isinstance(e.args[0], ast.Name) and e.args[0].id in params:
+                    fn = e.func.attr if isinstance(e.func, ast.Attribute) else (e.func.id if isinstance(e.func, ast.Name) else None)
+                    if fn in MEMBERSHIP:
+                        (pos if fc[1] else neg).append((fn, e.args[0].id))
+            if not pos and not neg:
+                continue
+            n += 1
+            construct = 'raise %s under %s' % (exn, ', '.join(('%s(%s)' % p) for p in pos) or 'failed membership tests')
+            if pos:
+                run.violation(rule, f.key, construct, 'the exception is raised on a path where %s(%s) has SUCCEEDED%s: the function rejects the values it is '
+                              'documented to accept (an inverted guard)' % (pos[0][0], pos[0][1],
+                                                                            (' and %s has failed' % ', '.join('%s(%s)' % q for q in neg)) if neg else ''), f=f, node=node.ast)
+            else:
+                run.holds(rule, f.key, construct, 'raised only where the membership tests have failed', f=f, node=node.ast, nontrivial=False)
+    return n
+
+
+def check_slot_completeness(run, funcs, rule='R20s'):
+    """A result vector allocated as zeros((k,)) and filled slot by slot (rpy[0] = .., rpy[1] = .., rpy[2] = ..) is returned only where every
+    slot 0..k-1 has been written on the path: a slot that is written twice while another is never written keeps its initial 0
+    (a copy-paste slip in the index)."""
+    from ..cfg import forward
+    n = 0
+    for f in funcs:
+        fi = FuncInfo.of(f)
+        allocs = {}
+        for st in own_walk(f.node):
+            if isinstance(st, ast.Assign) and len(st.targets) == 1 and isinstance(st.targets[0], ast.Name):
+                c = canon(fi, st.value, inline=False)
+                b = matches('zeros((_K,))', c) or matches('zeros(_K)', c) or matches('zeros((_K,), *_R)', c)
+                if b is not None and isinstance(b['_K'], ast.Constant) and isinstance(b['_K'].value, int) and 2 <= b['_K'].value <= 8:
+                    allocs[st.targets[0].id] = (b['_K'].value, st)
+        if not allocs:
+            continue
+        cfg = CFG(f.node)
+        reach = cfg.reachable()
+        for name, (k, alloc) in allocs.items():
+            # only vectors that are filled by constant-index stores at all
+            stores = [st for st in own_walk(f.node) if isinstance(st, ast.Assign) for t in st.targets
+                      if isinstance(t, ast.Subscript) and isinstance(t.value, ast.Name) and t.value.id == name and isinstance(t.slice, ast.Constant) and isinstance(t.slice.value, int)]
+            other = [st for st in own_walk(f.node) if isinstance(st, (ast.Assign, ast.AugAssign)) for t in (st.targets if isinstance(st, ast.Assign) else [st.target])
+                     if isinstance(t, ast.Subscript) and isinstance(t.value, ast.Name) and t.value.id == name and not (isinstance(t.slice, ast.Constant) and isinstance(t.slice.value, int))]
+            if len(stores) < k or other:
+                continue
+
+            def transfer(node, env):
+                a = node.ast
+                if node.kind == 'stmt' and a is alloc:
+                    return frozenset()
+                if env is None:
+                    return None
+                if node.kind == 'stmt' and isinstance(a, ast.Assign):
+                    for t in a.targets:
+                        if isinstance(t, ast.Name) and t.id == name:
+                            return None if a is not alloc else frozenset()
+                        if isinstance(t, ast.Subscript) and isinstance(t.value, ast.Name) and t.value.id == name and isinstance(t.slice, ast.Constant):
+                            return env | {t.slice.value % k if isinstance(t.slice.value, int) else t.slice.value}
+                return env
+
+            def join(vals):
+                vs = [v for v in vals if v is not None]
+                if not vs:
+                    return None
+                r = vs[0]
+                for v in vs[1:]:
+                    r = r & v
+                return r
+            # a chain `k == 0 / k == 1 / .. / k == m-1` over k = argmax(<m candidates>) is exhaustive: its fall-through edge is infeasible
+            facts = must_facts(cfg)
+            argmax_len = {}
+            for st in own_walk(f.node):
+                if isinstance(st, ast.Assign) and len(st.targets) == 1 and isinstance(st.targets[0], ast.Name):
+                    bb = matches('argmax(abs(_L))', canon(fi, st.value, inline=False)) or matches('argmax(_L)', canon(fi, st.value, inline=False))
+                    if bb is not None and isinstance(bb['_L'], (ast.List, ast.Tuple)):
+                        argmax_len[st.targets[0].id] = len(bb['_L'].elts)
+
+            def edge(src, label, val):
+                if val is None or label is None or not isinstance(label[0], ast.AST) or label[1] is not False:
+                    return val
+                t = label[0]
+                for kn, m in argmax_len.items():
+                    b0 = matches('%s == _I' % kn, t)
+                    if b0 is None or not isinstance(b0['_I'], ast.Constant):
+                        continue
+                    excluded = {b0['_I'].value}
+                    for fc in facts.get(src.id, frozenset()):
+                        b1 = matches('%s == _I' % kn, fc[2].ast)
+                        if b1 is not None and not fc[1] and isinstance(b1['_I'], ast.Constant):
+                            excluded.add(b1['_I'].value)
+                    if set(range(m)) <= excluded:
+                        return None
+                return val
+            IN, OUT = forward(cfg, None, transfer, join, edge_transfer=edge)
+            for node in cfg.nodes:
+                if node.id not in reach or not isinstance(node.ast, ast.Return) or node.ast.value is None:
+                    continue
+                if not any(isinstance(y, ast.Name) and y.id == name for y in ast.walk(node.ast.value)):
+                    continue
+                env = IN.get(node.id)
+                if env is None:
+                    continue
+                n += 1
+                missing = sorted(set(range(k)) - set(env))
+                construct = 'slots of %s at the return' % name
+                if missing:
+                    run.violation(rule, f.key, construct, '%s is allocated with %d zero slots and returned on a path on which slot %s is never written (slots '
+                                  'written on every such path: %s): that component of the result stays 0' % (name, k, '/'.join(map(str, missing)), sorted(env)), f=f, node=node.ast)
+                else:
+                    run.holds(rule, f.key, construct, 'every slot 0..%d is written on every path to the return' % (k - 1), f=f, node=node.ast)
+    return n
